@@ -153,6 +153,94 @@ Proof.
   - rewrite X3, X1 in N2. rewrite <- app_assoc in N2. exact N2.
 Qed.
 
+(* ---------- C16/C09: the setup matrix is read row = from-tool, column = to-tool ---------- *)
+Lemma nat2_eqb_eq a b : nat2_eqb a b = true <-> a = b.
+Proof.
+  destruct a as [a1 a2], b as [b1 b2]. unfold nat2_eqb. simpl. rewrite andb_true_iff, !Nat.eqb_eq.
+  split; [intros [-> ->]; auto|intros E; inversion E; auto].
+Qed.
+
+Lemma setup_lookup_dict_set l k v a b :
+  setup_lookup (dict_set nat2_eqb l k v) a b = if nat2_eqb k (a, b) then Some v else setup_lookup l a b.
+Proof.
+  induction l as [|[[p q] c] r IH]; simpl.
+  - destruct k as [k1 k2]. unfold nat2_eqb. simpl. reflexivity.
+  - destruct (nat2_eqb (p, q) k) eqn:E1.
+    + apply nat2_eqb_eq in E1. subst k. simpl. unfold nat2_eqb at 1. simpl.
+      destruct (Nat.eqb p a && Nat.eqb q b); reflexivity.
+    + simpl. rewrite IH. destruct (Nat.eqb p a && Nat.eqb q b) eqn:E2; auto.
+      destruct (nat2_eqb k (a, b)) eqn:E3; auto.
+      apply nat2_eqb_eq in E3. subst k. unfold nat2_eqb in E1. simpl in E1. congruence.
+Qed.
+
+Lemma find_snoc' {A} (f : A -> bool) l x : find f (l ++ [x]) = match find f l with Some y => Some y | None => if f x then Some x else None end.
+Proof. induction l; simpl; auto. destruct (f a); auto. Qed.
+
+Lemma srow_write from : forall cells acc a b,
+  setup_lookup (fold_left (fun a2 (cv : nat * Z) => dict_set nat2_eqb a2 (from, fst cv) (Det (snd cv))) cells acc) a b =
+  match find (fun cv : nat * Z => Nat.eqb (fst cv) b) (rev cells) with
+  | Some cv => if Nat.eqb from a then Some (Det (snd cv)) else setup_lookup acc a b
+  | None => setup_lookup acc a b
+  end.
+Proof.
+  induction cells as [|cv cells IH]; intros acc a b; simpl; auto.
+  rewrite IH, find_snoc', setup_lookup_dict_set.
+  destruct (find (fun cv0 : nat * Z => Nat.eqb (fst cv0) b) (rev cells)) as [y|].
+  - destruct (Nat.eqb from a) eqn:Ea; auto.
+    unfold nat2_eqb; simpl. rewrite Ea. reflexivity.
+  - unfold nat2_eqb; simpl. destruct (Nat.eqb from a) eqn:Ea; destruct (Nat.eqb (fst cv) b); simpl; auto.
+Qed.
+
+Section SetupDirection.
+Variable hdr : list nat.
+Variables from to : nat.
+
+Definition srow_step (acc : list ((nat * nat) * tcfg)) (row : nat * list Z) :=
+  fold_left (fun acc2 (cv : nat * Z) => dict_set nat2_eqb acc2 (fst row, fst cv) (Det (snd cv))) (zip_row hdr (snd row)) acc.
+
+Definition scell_of (r : nat * list Z) : option (nat * Z) :=
+  find (fun cv : nat * Z => Nat.eqb (fst cv) to) (rev (zip_row hdr (snd r))).
+
+Lemma srow_step_lookup acc r :
+  setup_lookup (srow_step acc r) from to =
+  if Nat.eqb (fst r) from
+  then match scell_of r with Some cv => Some (Det (snd cv)) | None => setup_lookup acc from to end
+  else setup_lookup acc from to.
+Proof. unfold srow_step, scell_of. rewrite srow_write. destruct (find _ _); destruct (Nat.eqb (fst r) from); reflexivity. Qed.
+
+Lemma srows_keep row v : scell_of row = Some (to, v) -> fst row = from ->
+  forall rows acc, (forall r', In r' rows -> fst r' = from -> r' = row) ->
+  setup_lookup acc from to = Some (Det v) -> setup_lookup (fold_left srow_step rows acc) from to = Some (Det v).
+Proof.
+  intros Hcell Hfrom. induction rows as [|r rs IH]; intros acc Hu Hacc; simpl; auto.
+  apply IH; [intros r' Hr'; apply Hu; right; auto|].
+  rewrite srow_step_lookup. destruct (Nat.eqb (fst r) from) eqn:Ef; auto.
+  apply Nat.eqb_eq in Ef. rewrite (Hu r (or_introl eq_refl) Ef), Hcell. reflexivity.
+Qed.
+
+Theorem srows_direction row v rows acc :
+  In row rows -> fst row = from -> (forall r', In r' rows -> fst r' = from -> r' = row) ->
+  scell_of row = Some (to, v) -> setup_lookup (fold_left srow_step rows acc) from to = Some (Det v).
+Proof.
+  intros Hin Hfrom Hu Hcell. destruct (in_split _ _ Hin) as [pre [post E]]. subst rows.
+  rewrite fold_left_app. simpl. apply srows_keep with (row := row); auto.
+  - intros r' Hr'. apply Hu. apply in_app_iff. right; right; auto.
+  - rewrite srow_step_lookup, Hfrom, Nat.eqb_refl, Hcell. reflexivity.
+Qed.
+End SetupDirection.
+
+(* the entry the state machine looks up for (mounted tool a, new tool b) on machine m is the cell written in the row of tool a under the column of
+   tool b of the matrix given for m *)
+Theorem setup_direction d m nmach l hdr rows st a b row v :
+  d_setup d = Some l -> find (fun e => Nat.eqb (fst e) m) l = Some (m, (hdr, rows)) -> setup_of d m nmach = Ok st ->
+  In row rows -> fst row = a -> (forall r', In r' rows -> fst r' = a -> r' = row) ->
+  scell_of hdr b row = Some (b, v) ->
+  setup_lookup st a b = Some (Det v).
+Proof.
+  intros Hs Hf Hst Hin Hfrom Hu Hcell. unfold setup_of in Hst. rewrite Hs, Hf in Hst. inversion Hst; subst st.
+  exact (srows_direction hdr a b row v rows [] Hin Hfrom Hu Hcell).
+Qed.
+
 (* ---------- C16: the travel-time matrix is read row = from, column = to ---------- *)
 Lemma place2_eqb_eq a b : place2_eqb a b = true <-> a = b.
 Proof.
@@ -483,4 +571,131 @@ Proof.
       inversion H; subst i L. simpl. rewrite Lm. auto.
 Qed.
 
+(* ---------- machines, AGVs and tools as written ---------- *)
+Lemma mapM_enum_nth {A B} (g : nat -> A -> res B) :
+  forall l n r k b,
+    mapM (fun '(k, a) => g k a)
+         ((fix en (n : nat) (l : list A) := match l with [] => [] | a :: r => (n, a) :: en (S n) r end) n l) = Ok r ->
+    nth_error r k = Some b -> exists a, nth_error l k = Some a /\ g (n + k) a = Ok b.
+Proof.
+  induction l as [|a l IH]; intros n r k b H Hk; simpl in H.
+  - inversion H; subst. destruct k; discriminate.
+  - destruct (g n a) as [b0|] eqn:E; simpl in H; [|discriminate].
+    match type of H with bind ?e _ = _ => destruct e as [bs|] eqn:E2; simpl in H; [|discriminate] end.
+    inversion H; subst. destruct k as [|k]; simpl in Hk.
+    + inversion Hk; subst. exists a. rewrite Nat.add_0_r. auto.
+    + destruct (IH (S n) bs k b E2 Hk) as [a0 [A1 A2]]. exists a0. split; auto. replace (n + S k) with (S n + k) by lia. exact A2.
+Qed.
+
+Lemma build_machines_nth : forall n k nmach ids ms labs ids' m mc,
+  build_machines d k n nmach ids = Ok (ms, labs, ids') -> nth_error ms m = Some mc ->
+  exists st, setup_of d (k + m) nmach = Ok st
+    /\ mc = mkMCfg (apply_spec (default_buf RComponent) (fst (mach_specs d (k + m)))) inner_buf
+                   (apply_spec (default_buf RComponent) (snd (mach_specs d (k + m)))) st (outages_for d true (k + m)).
+Proof.
+  induction n as [|n IH]; intros k nmach ids ms labs ids' m mc H Hm; simpl in H.
+  - inversion H; subst. destruct m; discriminate.
+  - destruct (mach_specs d k) as [sp sq] eqn:Ems.
+    repeat match type of H with
+           | context [let '(_, _) := ?e in _] => destruct e as [? ?]
+           end.
+    match type of H with bind ?e _ = _ => destruct e as [st|] eqn:Es; simpl in H; [|discriminate] end.
+    match type of H with bind ?e _ = _ => destruct e as [[[r labs0] ids0]|] eqn:E; simpl in H; [|discriminate] end.
+    inversion H; subst. destruct m as [|m]; simpl in Hm.
+    + inversion Hm; subst. exists st. rewrite Nat.add_0_r, Ems. auto.
+    + destruct (IH _ _ _ _ _ _ _ _ E Hm) as [st' [A B]]. exists st'. replace (k + S m) with (S k + m) by lia. auto.
+Qed.
+
+Lemma build_transports_all : forall wo n ids ts labs ids' ac,
+  build_transports d wo n ids = (ts, labs, ids') -> In ac ts ->
+  ac = mkACfg inner_buf (if wo then outages_for d false 0%nat else []).
+Proof.
+  induction n as [|n IH]; intros ids ts labs ids' ac H Hin; simpl in H.
+  - inversion H; subst. destruct Hin.
+  - unfold take_id in H.
+    destruct (build_transports d wo n (ids ++ [new_id ids])) as [[r labs0] ids0] eqn:E.
+    inversion H; subst. destruct Hin as [<-|Hin]; [reflexivity|]. eapply IH; eauto.
+Qed.
+
+(* every machine of the compiled instance has the pre- and post-buffer the document gives it (or the unbounded flex default), a one-slot
+   internal buffer, the setup matrix written for it and exactly the outages that name it or all machines *)
+Theorem compile_machines_as_written early i L m mc :
+  compile_inst d early = Ok (i, L) -> nth_error (i_machs i) m = Some mc ->
+  exists nmach st, nm d = Ok nmach /\ setup_of d m nmach = Ok st
+    /\ mc = mkMCfg (apply_spec (default_buf RComponent) (fst (mach_specs d m))) inner_buf
+                   (apply_spec (default_buf RComponent) (snd (mach_specs d m))) st (outages_for d true m).
+Proof.
+  unfold compile_inst. intros H Hm.
+  destruct (nm d) as [nmach|] eqn:En; simpl in H; [|discriminate].
+  destruct (build_machines d 0 nmach nmach (map fst (d_bufs d))) as [[[machs mlabs] ids1]|] eqn:Em; simpl in H; [|discriminate].
+  assert (Hi : i_machs i = machs).
+  { repeat match type of H with
+           | context [let '(_, _) := ?e in _] => destruct e as [? ?]
+           | context [match ?e with (_, _) => _ end] => destruct e as [? ?]
+           end.
+    match type of H with bind ?e _ = _ => destruct e as [jobs|]; simpl in H; [|discriminate] end.
+    match type of H with bind ?e _ = _ => destruct e; simpl in H; [|discriminate] end.
+    inversion H; subst i. reflexivity. }
+  rewrite Hi in Hm. destruct (build_machines_nth _ _ _ _ _ _ _ _ _ Em Hm) as [st [A B]]. exists nmach, st. auto.
+Qed.
+
+(* every AGV has a one-slot buffer and the transport outages of the document (none for the default one-AGV-per-job logistics) *)
+Theorem compile_agvs_as_written early i L ac :
+  compile_inst d early = Ok (i, L) -> In ac (i_trans i) ->
+  ac = mkACfg inner_buf (match match d_log d with Some lg => dl_amount lg | None => None end with
+                         | Some _ => outages_for d false 0%nat | None => [] end).
+Proof.
+  unfold compile_inst. intros H Hin.
+  destruct (nm d) as [nmach|] eqn:En; simpl in H; [|discriminate].
+  destruct (build_machines d 0 nmach nmach (map fst (d_bufs d))) as [[[machs mlabs] ids1]|] eqn:Em; simpl in H; [|discriminate].
+  destruct (match d_log d with Some lg => dl_amount lg | None => None end) as [amount|] eqn:Ea.
+  - destruct (build_transports d true amount ids1) as [[trans tlabs] ids2] eqn:Et.
+    assert (Hi : i_trans i = trans).
+    { repeat match type of H with
+             | context [let '(_, _) := ?e in _] => destruct e as [? ?]
+             | context [match ?e with (_, _) => _ end] => destruct e as [? ?]
+             end.
+      match type of H with bind ?e _ = _ => destruct e as [jobs|]; simpl in H; [|discriminate] end.
+      match type of H with bind ?e _ = _ => destruct e; simpl in H; [|discriminate] end.
+      inversion H; subst i. reflexivity. }
+    rewrite Hi in Hin. exact (build_transports_all _ _ _ _ _ _ _ Et Hin).
+  - destruct (build_transports d false (nj d) ids1) as [[trans tlabs] ids2] eqn:Et.
+    assert (Hi : i_trans i = trans).
+    { repeat match type of H with
+             | context [let '(_, _) := ?e in _] => destruct e as [? ?]
+             | context [match ?e with (_, _) => _ end] => destruct e as [? ?]
+             end.
+      match type of H with bind ?e _ = _ => destruct e as [jobs|]; simpl in H; [|discriminate] end.
+      match type of H with bind ?e _ = _ => destruct e; simpl in H; [|discriminate] end.
+      inversion H; subst i. reflexivity. }
+    rewrite Hi in Hin. exact (build_transports_all _ _ _ _ _ _ _ Et Hin).
+Qed.
+
+(* the tool of every operation is the one tool_usage lists at that position (tool 0 when the document has no tool_usage) *)
+Theorem compile_tools_as_written early i L j ops k oc :
+  compile_inst d early = Ok (i, L) -> nth_error (i_jobs i) j = Some ops -> nth_error ops k = Some oc ->
+  match d_tools d with
+  | None => oc_tool oc = 0
+  | Some tu => exists ts, nth_error tu j = Some ts /\ nth_error ts k = Some (oc_tool oc)
+  end.
+Proof.
+  unfold compile_inst. intros H Hj Hk.
+  destruct (nm d) as [nmach|]; simpl in H; [|discriminate].
+  destruct (build_machines d 0 nmach nmach (map fst (d_bufs d))) as [[[machs mlabs] ids1]|]; simpl in H; [|discriminate].
+  repeat match type of H with
+         | context [let '(_, _) := ?e in _] => destruct e as [? ?]
+         | context [match ?e with (_, _) => _ end] => destruct e as [? ?]
+         end.
+  match type of H with bind ?e _ = _ => destruct e as [jobs|] eqn:Ej; simpl in H; [|discriminate] end.
+  match type of H with bind ?e _ = _ => destruct e; simpl in H; [|discriminate] end.
+  inversion H; subst i L. simpl in Hj. clear H.
+  destruct (mapM_enum_nth _ _ _ _ _ _ Ej Hj) as [dops [_ Hops]]. simpl in Hops.
+  destruct (mapM_enum_nth _ _ _ _ _ _ Hops Hk) as [md [_ Hoc]]. simpl in Hoc.
+  destruct (d_tools d) as [tu|].
+  - destruct (nth_error tu j) as [ts|]; simpl in Hoc; [|discriminate].
+    destruct (nth_error ts k) as [t|] eqn:Et; simpl in Hoc; [|discriminate]. inversion Hoc; subst. exists ts. auto.
+  - simpl in Hoc. inversion Hoc; subst. reflexivity.
+Qed.
+
 End J.
+
